@@ -9,6 +9,8 @@ let z_of_int n = if n = 0 then Z0 else if n > 0 then Zpos (pos_of_int n) else Zn
 let rec int_of_pos = function Coq_xH -> 1 | Coq_xO p -> 2 * int_of_pos p | Coq_xI p -> 2 * int_of_pos p + 1
 let int_of_z = function Z0 -> 0 | Zpos p -> int_of_pos p | Zneg p -> - (int_of_pos p)
 
+let int_of_n = function N0 -> 0 | Npos p -> int_of_pos p
+
 let tag_of_int t = if t < 0 then None else Some (z_of_int t)
 let tag_str = function None -> "-1" | Some z -> string_of_int (int_of_z z)
 let bool_int b = if b then 1 else 0
@@ -78,6 +80,16 @@ module T = struct
         match Hashtbl.find_opt by_h (int_of_z h) with
         | Some k -> Printf.printf " %d" k
         | None -> print_string " ?") (Tlsf.iterate t);
+    print_newline ();
+    (* free-list structure: first-level bitmap | non-zero second-level bitmaps | non-empty lists in list order *)
+    Printf.printf "FL %d |" (int_of_n t.Tlsf.t_bitmap);
+    Stdlib.List.iteri (fun c v -> let v = int_of_n v in if v <> 0 then Printf.printf " %d:%d" c v) t.Tlsf.t_inner;
+    print_string " |";
+    Stdlib.List.iteri (fun i l ->
+        if l <> [] then begin
+          Printf.printf " %d:" i;
+          Stdlib.List.iteri (fun j off -> if j > 0 then print_string ","; print_string (string_of_int (int_of_z off))) l
+        end) t.Tlsf.t_lists;
     print_newline ()
 
   let kind_str = function Util.ROk -> "ok" | Util.RRefused -> "refused" | Util.RError -> "error" | Util.RPanic -> "panic"
